@@ -12,20 +12,26 @@ Definition dAcc (s : sx) : option (Z * account) :=
   | _ => None
   end.
 (* observation of an account: address, nonce, balance, sorted non-zero storage *)
-Definition dObsAcc (s : sx) : option (Z * Z * Z * list (Z * Z)) :=
+Definition dObsAcc (s : sx) : option (Z * Z * Z * list Z * list (Z * Z)) :=
   match s with
-  | SL [SZ a; SZ n; SZ bal; st] => st' <-? dL dKV st ;; Some (a, n, bal, st')
+  | SL [SZ a; SZ n; SZ bal; SB code; st] => st' <-? dL dKV st ;; Some (a, n, bal, zb code, st')
   | _ => None
   end.
 Definition dWLog (s : sx) : option (Z * list Z * list Z) :=
   match s with SL [SZ a; t; SB d] => t' <-? dL dZ t ;; Some (a, t', zb d) | _ => None end.
 
-Definition acc_ok (w : world) (o : Z * Z * Z * list (Z * Z)) : bool :=
+Definition acc_ok (w : world) (o : Z * Z * Z * list Z * list (Z * Z)) : bool :=
   match o with
-  | (a, n, bal, st) =>
+  | (a, n, bal, code, st) =>
     let x := get_acc w a in
-    (a_nonce x =? n) && (a_balance x =? bal) && list_eqb kv_eqb (norm_store (a_store x)) st
+    (a_nonce x =? n) && (a_balance x =? bal) && zl_eqb (a_code x) code && list_eqb kv_eqb (norm_store (a_store x)) st
   end.
+(* every account the model's world holds something in is among the observed ones *)
+Definition blank (x : account) : bool :=
+  (a_nonce x =? 0) && (a_balance x =? 0) && (match a_code x with [] => true | _ => false end)
+  && (match norm_store (a_store x) with [] => true | _ => false end).
+Definition no_extras (w : world) (ob : list (Z * Z * Z * list Z * list (Z * Z))) : bool :=
+  forallb (fun p => existsb (fun o => fst (fst (fst (fst o))) =? fst p) ob || blank (get_acc w (fst p))) w.
 Definition wlog_eqb (a b : Z * list Z * list Z) : bool :=
   (fst (fst a) =? fst (fst b)) && zl_eqb (snd (fst a)) (snd (fst b)) && zl_eqb (snd a) (snd b).
 
@@ -35,11 +41,12 @@ Definition check_evmworld (c : sx) : sx :=
         SZ cls; SB ret; obs; logs] =>
     match dL dAcc accs, dL dObsAcc obs, dL dWLog logs with
     | Some w0, Some ob, Some lg =>
-      let b := mkBenv origin 0 coinbase time number diff gaslimit in
+      let b := mkBenv origin 0 coinbase time number diff gaslimit harness_blockhash in
       let verdict (w : world) (l : list (Z * list Z * list Z)) (want : Z) (r : option (list Z)) :=
         if negb (cls =? want) then sx_of_codes [1%N; Z.to_N want; Z.to_N cls]
         else if negb (match r with Some r' => zl_eqb r' (zb ret) | None => true end) then sx_of_codes [2%N]
         else if negb (forallb (acc_ok w) ob) then sx_of_codes [3%N]
+        else if negb (no_extras w ob) then sx_of_codes [5%N]
         else if negb (list_eqb wlog_eqb (rev l) lg) then sx_of_codes [4%N]
         else sx_of_codes [] in
       if cls =? 3 then sx_of_codes [0%N]     (* out of gas on the real side: gas is not modelled *)
